@@ -31,6 +31,34 @@ def _apply(repo, seed):
     return src
 
 
+def _reformat_all(args):
+    """global behaviour-preserving refactor: every module re-printed by ast.unparse (comments dropped, quotes, line
+    breaks and all line numbers changed).  The verdict must not change: rules may not depend on text or positions."""
+    modname, root, pid = args
+    import ast, importlib, warnings
+    mod = importlib.import_module(modname)
+    base = Repo(root)
+    over = {}
+    with warnings.catch_warnings():
+        warnings.simplefilter("ignore")
+        for name, m in base.modules.items():
+            try:
+                over[name] = ast.unparse(ast.parse(m.source)) + "\n"
+            except Exception as e:   # pragma: no cover
+                return "crash", repr(e)
+    try:
+        repo = Repo(root, overrides=over)
+        ctx = Ctx(pid, "quick", repo, quiet=True)
+        try:
+            mod.check(ctx)
+        except AnalysisError as e:
+            ctx.error(str(e))
+    except Exception as e:
+        import traceback
+        return "crash", traceback.format_exc()[-400:]
+    return "ran", ([f.key() for f in ctx.findings], list(ctx.errors))
+
+
 def _one(args):
     modname, root, pid, idx = args
     import importlib
@@ -60,11 +88,23 @@ def run(mod, repo, pid, ctx):
     seeds = getattr(mod, "SEEDS", [])
     base_keys = {f.key() for f in ctx.findings}
     res = {"fault_total": 0, "fault_fired": 0, "refactor_total": 0, "refactor_silent": 0, "skipped": [], "details": []}
-    if not seeds:
-        return res
     jobs = [(mod.__name__, repo.root, pid, i) for i in range(len(seeds))]
-    with ProcessPoolExecutor(max_workers=min(16, len(jobs), os.cpu_count() or 1)) as ex:
+    with ProcessPoolExecutor(max_workers=min(16, len(jobs) + 1, os.cpu_count() or 1)) as ex:
+        fut = ex.submit(_reformat_all, (mod.__name__, repo.root, pid))
         results = list(ex.map(_one, jobs))
+        rstatus, rpayload = fut.result()
+    res["refactor_total"] += 1
+    if rstatus == "ran":
+        keys, errors = rpayload
+        new = [k for k in keys if tuple(k) not in base_keys]
+        gone = [k for k in base_keys if k not in {tuple(x) for x in keys}]
+        if not new and not gone and not errors:
+            res["refactor_silent"] += 1
+            res["details"].append({"seed": "global-reformat (ast.unparse of all modules)", "kind": "refactor", "silent": True})
+        else:
+            ctx.error(f"selftest: global reformat changed the verdict (new: {new[:3]}, gone: {gone[:3]}, errors: {errors[:2]})")
+    else:
+        ctx.error(f"selftest: global reformat crashed the checker: {rpayload}")
     for idx, status, payload in results:
         s = seeds[idx]
         if status == "skipped":
